@@ -326,6 +326,39 @@ def run_history(ctx, idx, rng, tmp):
                     hist.append(["set", sec, key, v])
                 for f in read_before:
                     read_before[f] = "changed"
+            elif r < 0.46 and step % 3 == 0:
+                # chain probe: read a feature that depends on a computed feature, change an
+                # ingredient of the *intermediate* feature only, read again
+                feat, sec, key = [("vmon_plugin2", "imaging", "pixel size"),
+                                  ("vmon_plugin3", "calculation", "emodulus temperature"),
+                                  ("vmon_plugin3", "setup", "flow rate")][int(rng.integers(0, 3))]
+                for rep in range(2):
+                    twin = build(kind, data, {s_: dict(kv) for s_, kv in cfg.items()}, temp, tmp,
+                                 idx)
+                    for s_, k_ in deleted:
+                        if k_ in twin.config[s_]:
+                            del twin.config[s_][k_]
+                    try:
+                        area_um = data.get("area_um")
+                        if area_um is None:
+                            pix = eff_cfg()["imaging"].get("pixel size")
+                            area_um = data["area_cvx"] * pix ** 2 if pix else None
+                        hist.append(["read", feat, "root (chain probe)"])
+                        judge_read(ctx, ds, twin, feat, hist, eff_cfg(), data, area_um)
+                    finally:
+                        twin.close()
+                    if rep == 0:
+                        choices = CFG_CHOICES[(sec, key)]
+                        cur = eff_cfg().get(sec, {}).get(key)
+                        v = [c for c in choices if c != cur][int(rng.integers(
+                            0, len([c for c in choices if c != cur])))]
+                        ds.config[sec][key] = v
+                        cfg[sec][key] = v
+                        deleted.discard((sec, key))
+                        hist.append(["set", sec, key, v])
+                nontrivial = True
+                for f in read_before:
+                    read_before[f] = "changed"
             elif r < 0.48:
                 arr = rng.normal(size=n)
                 dclab.set_temporary_feature(ds, "vmon_t1", arr)
